@@ -311,20 +311,22 @@ pub fn check_pair(c: &Pair) -> Verdict {
     if c.a.is_zero() || c.b.is_zero() {
         v.labels.push("has-zero");
     }
+    special_labels(&mut v, &c.a, &ma);
     let expect = [ma.add(&mb), ma.sub(&mb), ma.mul(&mb), mb.sub(&ma), ma.add(&mb), ma.neg().sub(&mb), ma.abs().add(&mb.abs())];
     for (name, op, f) in dd_table() {
         let got = dec_of(&f(&a, &b));
         ensure!(v, got.eq_val(&expect[op as usize]), format!("C01/wrong-value:{}", name), "{}: got {} expected {}", name, got.show(), expect[op as usize].show());
     }
-    // derived unary operations on a
+    // derived unary operations on a and on b
     let two = Dec::from_str_int("2", 0);
+    for (a, ma) in [(&a, &ma), (&b, &mb)] {
     let un: Vec<(&str, Dec, Dec)> = vec![
         ("double", dec_of(&a.double()), ma.mul(&two)),
         ("half", dec_of(&a.half()), ma.half()),
         ("square", dec_of(&a.square()), ma.mul(&ma)),
         ("cube", dec_of(&a.cube()), ma.mul(&ma).mul(&ma)),
         ("neg BD", dec_of(&(-a.clone())), ma.neg()),
-        ("neg &BD", dec_of(&(-&a)), ma.neg()),
+        ("neg &BD", dec_of(&(-a)), ma.neg()),
         ("neg Ref", dec_of(&(-a.to_ref()).to_owned()), ma.neg()),
         ("abs inherent", dec_of(&BigDecimal::abs(&a)), ma.abs()),
         ("abs Signed", dec_of(&<BigDecimal as Signed>::abs(&a)), ma.abs()),
@@ -332,6 +334,7 @@ pub fn check_pair(c: &Pair) -> Verdict {
     ];
     for (name, got, want) in un {
         ensure!(v, got.eq_val(&want), format!("C01/wrong-value:{}", name), "{}: got {} expected {}", name, got.show(), want.show());
+    }
     }
     // Sum over owned and borrowed iterators of [a, b, a]
     let want = ma.add(&mb).add(&ma);
@@ -348,6 +351,15 @@ pub struct WithInt {
     pub n: String,
 }
 
+/// labels for operands in a special representation (shortcut branches of the library look at these)
+fn special_labels(v: &mut Verdict, d: &D, m: &Dec) {
+    if d.is_zero() && d.scale != 0 {
+        v.labels.push("decimal-operand-zero-with-scale");
+    } else if d.scale != 0 && m.abs().eq_val(&Dec::one()) {
+        v.labels.push("decimal-operand-one-written-1.00");
+    }
+}
+
 pub fn check_int(c: &WithInt) -> Verdict {
     let a = c.a.bd();
     let n = bigint(&c.n);
@@ -355,6 +367,7 @@ pub fn check_int(c: &WithInt) -> Verdict {
     let mn = Dec::new(n.clone(), 0);
     let mut v = Verdict::pass(!c.a.is_zero() && c.n != "0" && (c.a.scale != 0 || c.a.ndigits() > 19 || c.n.len() > 19));
     v.labels.push(gap_label(c.a.scale.unsigned_abs()));
+    special_labels(&mut v, &c.a, &ma);
     for (name, op, f) in di_table() {
         let got = dec_of(&f(&a, &n));
         let want = model(op, &ma, &mn);
@@ -383,6 +396,7 @@ pub fn check_prim(c: &WithPrim) -> Verdict {
     let mn = Dec::new(n.clone(), 0);
     let mut v = Verdict::pass(!c.a.is_zero() && (c.val != "0") && (c.a.scale != 0 || c.a.ndigits() > 19 || extreme));
     v.labels.push(PRIM_TYPES[ty as usize]);
+    special_labels(&mut v, &c.a, &ma);
     if extreme {
         v.labels.push("prim-extreme");
     }
@@ -450,10 +464,14 @@ fn grid_case(i: u64, seed: u64) -> Option<Pair> {
 fn sweep_case(i: u64, max_gap: u64, seed: u64) -> Option<Pair> {
     let gap = i % (max_gap + 1);
     let k = i / (max_gap + 1);
-    let sa = GRID_SHAPES[(k % 6) as usize];
-    let sb = GRID_SHAPES[((k / 6) % 6) as usize];
-    let signs = (k / 36) % 4;
     let mut rng = SplitMix(seed ^ i.wrapping_mul(0xd6e8feb86659fd93));
+    // thorough enumerates all 144 shape/sign combinations per gap; quick (k < 4) draws them, with the sign pair
+    // cycling through all four per gap
+    let (sa, sb, signs) = if k < 4 && max_gap <= 3000 {
+        (GRID_SHAPES[rng.below(6) as usize], GRID_SHAPES[rng.below(6) as usize], (k + gap) % 4)
+    } else {
+        (GRID_SHAPES[(k % 6) as usize], GRID_SHAPES[((k / 6) % 6) as usize], (k / 36) % 4)
+    };
     let da = gen::digits_of(&DigSpec { shape: sa, len: 1 + rng.below(24) as usize, head: vec![], seed: rng.next(), aux: rng.next() as u32 });
     let db = gen::digits_of(&DigSpec { shape: sb, len: 1 + rng.below(24) as usize, head: vec![], seed: rng.next(), aux: rng.next() as u32 });
     let base = rng.below(41) as i64 - 20;
@@ -463,10 +481,28 @@ fn sweep_case(i: u64, max_gap: u64, seed: u64) -> Option<Pair> {
     Some(Pair { a, b })
 }
 
+/// special representations for the decimal operand: zero carrying a scale, +-one written as 1.00..0,
+/// a power of ten written with a scale (10^k e-j), otherwise the generated decimal
+fn specialise(a: D, sel: u8, r: u64) -> D {
+    match sel {
+        0 => D::new("0", (r % 81) as i64 - 40),
+        1 | 2 => {
+            let z = (r % 61) as usize;
+            D::new(format!("{}1{}", if sel == 2 { "-" } else { "" }, "0".repeat(z)), z as i64)
+        }
+        3 => {
+            let (k, j) = ((r % 50) as usize, ((r / 50) % 61) as i64 - 20);
+            D::new(format!("{}1{}", if r & (1 << 40) != 0 { "-" } else { "" }, "0".repeat(k)), j)
+        }
+        _ => a,
+    }
+}
+
 fn pair_strategy(max_len: usize) -> BoxedStrategy<Pair> {
     // a, then b placed relative to a by a generated gap; special representations mixed in
-    (gen::decimal(max_len, 10_000), gen::sdigits(max_len), gen::gap_strategy(10_000), any::<bool>(), 0..10u8)
-        .prop_map(|(a, bint, gap, dir, special)| {
+    (gen::decimal(max_len, 10_000), gen::sdigits(max_len), gen::gap_strategy(10_000), any::<bool>(), 0..10u8, 0..24u8, any::<u64>())
+        .prop_map(|(a, bint, gap, dir, special, asel, r)| {
+            let a = specialise(a, asel, r);
             let bscale = if dir { a.scale.saturating_add(gap as i64) } else { a.scale.saturating_sub(gap as i64) };
             let bscale = bscale.clamp(-10_000, 10_000);
             let b = match special {
@@ -490,8 +526,9 @@ fn pair_strategy(max_len: usize) -> BoxedStrategy<Pair> {
 }
 
 fn int_strategy(max_len: usize) -> BoxedStrategy<WithInt> {
-    (gen::decimal(max_len, 10_000), gen::sdigits(200), 0..8u8)
-        .prop_map(|(a, n, sp)| {
+    (gen::decimal(max_len, 10_000), gen::sdigits(200), 0..8u8, 0..16u8, any::<u64>())
+        .prop_map(|(a, n, sp, asel, r)| {
+            let a = specialise(a, asel, r);
             let n = match sp {
                 0 => "0".to_string(),
                 1 => "1".to_string(),
@@ -537,8 +574,8 @@ fn prim_value(ty: u8, sel: u8, raw: u128) -> BigInt {
 }
 
 fn prim_strategy(max_len: usize) -> BoxedStrategy<WithPrim> {
-    (gen::decimal(max_len, 10_000), 0..10u8, 0..32u8, any::<u128>())
-        .prop_map(|(a, ty, sel, raw)| WithPrim { a, ty, val: prim_value(ty, sel, raw).to_string() })
+    (gen::decimal(max_len, 10_000), 0..10u8, 0..32u8, any::<u128>(), 0..16u8)
+        .prop_map(|(a, ty, sel, raw, asel)| WithPrim { a: specialise(a, asel, (raw >> 64) as u64 ^ raw as u64), ty, val: prim_value(ty, sel, raw).to_string() })
         .boxed()
 }
 
@@ -560,7 +597,8 @@ fn prim_grid(i: u64, seed: u64) -> Option<WithPrim> {
 pub fn run(ctx: &Ctx) {
     let t = ctx.tier;
     let seed = ctx.seed;
-    let reps = t.pick(3u64, 30);
+    // the checked build (debug assertions, overflow checks) repeats the grids once in the quick tier
+    let reps = if ctx.flavour == "chk" { t.pick(1u64, 10) } else { t.pick(3u64, 30) };
     ctx.enumerated(
         "grid-gaps",
         "pair",
@@ -576,7 +614,7 @@ pub fn run(ctx: &Ctx) {
         "pair",
         (max_gap + 1) * t.pick(4, 36 * 4),
         false,
-        &format!("EVERY scale gap 0..={} (both directions) with operands of 1..24 digits; quick draws 4 shape/sign combinations per gap, thorough all 144", max_gap),
+        &format!("EVERY scale gap 0..={} (both directions) with operands of 1..24 digits; quick: 4 drawn shape pairs per gap, one for each sign pair; thorough: all 144 shape/sign combinations", max_gap),
         move |i| sweep_case(i, max_gap, seed),
         check_pair,
     );
